@@ -428,7 +428,7 @@ func runC10(s *Sim) {
 		s.mu.Lock()
 		s.Net.NoDial = true
 		s.mu.Unlock()
-		for _, l := range s.Net.Links {
+		for _, l := range y.allLinks() {
 			l.Kill(errEOF, errClosed)
 		}
 		s.Wait()
